@@ -3,6 +3,7 @@ package sim
 import (
 	"context"
 	"fmt"
+	"time"
 
 	"github.com/fullstorydev/grpchan/grpchantesting"
 	"google.golang.org/grpc/metadata"
@@ -90,6 +91,15 @@ func genC10(g *gen, seed int64) *Program {
 		}
 		inner.Client = []Op{{K: "invoke", Msg: g.msg()}}
 		inner.Handler = []Op{{K: "decode"}, {K: "return", Msg: g.msg()}}
+		if g.p(0.5) {
+			// shorter than anything the outer call carries
+			inner.DeadlineN = int64(200e6) + g.dur()%int64(500e6) + g.uniq()
+			if g.p(0.5) {
+				// the nested handler waits for its context: the nested call's own
+				// deadline (not the outer caller's, which is later or absent) ends it
+				inner.Handler = []Op{{K: "decode"}, {K: "waitctx"}, {K: "return", St: &StatusSpec{Plain: 6}}}
+			}
+		}
 		outer.Client = []Op{{K: "invoke", Msg: g.msg()}}
 		outer.Handler = []Op{{K: "decode"}, {K: "nested", N: inner.ID}, {K: "return", Msg: g.msg()}}
 		p.RPCs = append(p.RPCs, outer, inner)
@@ -122,7 +132,14 @@ func (s *Sim) nestedCall(outer *rpcState, innerID int, hctx context.Context) {
 		base = metadata.NewOutgoingContext(base, rs.outMD)
 	}
 	rs.baseCtx = base
-	rs.ctx, rs.cancel = context.WithCancel(base)
+	if r.DeadlineN > 0 {
+		// the handler gives its nested call a deadline of its own
+		rs.deadline = time.Now().Add(time.Duration(r.DeadlineN))
+		rs.ctx, rs.cancel = context.WithDeadline(base, rs.deadline)
+		s.addInstant(rs.deadline)
+	} else {
+		rs.ctx, rs.cancel = context.WithCancel(base)
+	}
 	rs.started = true
 	rs.nestedIn = outer
 	var spec *MsgSpec
